@@ -441,6 +441,7 @@ def _check_s5(prog: Program, L: Ledger, ci: ClassInfo, ct, kw) -> None:
                 for t in tgts:
                     if isinstance(t, ast.Attribute) and isinstance(t.value, ast.Name) and t.value.id == "self":
                         stores[t.attr] = n.value
+        _check_live_copy(prog, L, ci, k, v, owner, stores)
         verdict = sympy_identity_param(prog, owner, k, stores, v)
         if verdict is None:
             continue
@@ -448,6 +449,42 @@ def _check_s5(prog: Program, L: Ledger, ci: ClassInfo, ct, kw) -> None:
         L.check(okv, "S5", f"{ci.name}.kwargs[{k}]", v.func.where,
                 f"emitted `{norm(v.expr)}` does not invert the constructor's treatment of `{k}`: {detail}",
                 f"from_dict(to_dict()) changes `{k}`: {detail}", k)
+
+
+def _check_live_copy(prog: Program, L: Ledger, ci: ClassInfo, k: str, v, owner, stores: dict) -> None:
+    """When the constructor keeps several attributes derived from one parameter (`self.time_step = dt; self.dt =
+    self.time_step * fs`), to_dict must emit from the one the object's behaviour reads: the other is a construction-time
+    copy that stays behind when the live attribute is retuned on the object."""
+    derived: set[str] = set()
+    grew = True
+    while grew:
+        grew = False
+        for attr, val in stores.items():
+            if attr in derived:
+                continue
+            names = {n.id for n in ast.walk(val) if isinstance(n, ast.Name)}
+            attrs = {n.attr for n in ast.walk(val) if isinstance(n, ast.Attribute) and isinstance(n.value, ast.Name) and n.value.id == "self"}
+            if k in names or attrs & derived:
+                derived.add(attr)
+                grew = True
+    if len(derived) < 2:
+        return
+    emitted = {n.attr for n in ast.walk(v.expr) if isinstance(n, ast.Attribute) and isinstance(n.value, ast.Name) and n.value.id == "self"} & derived
+    live: set[str] = set()
+    for c in prog.mro_classes(ci):
+        for m in list(c.methods.values()) + list(c.setters.values()):
+            if m.name in ("__init__", "to_dict", "todict", "from_dict", "__repr__", "__str__"):
+                continue
+            for n in ast.walk(m.node):
+                if isinstance(n, ast.Attribute) and isinstance(n.value, ast.Name) and n.value.id == "self" and n.attr in derived and isinstance(n.ctx, ast.Load):
+                    live.add(n.attr)
+    others = {a for a in (derived - emitted) & live if not a.startswith("_")}  # public: a user can retune it
+    if emitted and not (emitted & live) and others:
+        L.violation("S5", f"{ci.name}.kwargs[{k}]:live-copy", v.func.where,
+                    f"to_dict emits `{norm(v.expr)}` for `{k}`, a copy kept by the constructor; the object's methods read `self.{sorted(others)[0]}` instead, which can be retuned on the live object",
+                    f"set `{sorted(others)[0]}` on a built {ci.name} (as one tunes any public attribute), serialise, rebuild: the rebuilt object runs with the construction-time `{k}`", k)
+    else:
+        L.ok("S5", f"{ci.name}.kwargs[{k}]:live-copy", v.func.where)
 
 
 def _check_s2(prog: Program, L: Ledger, subj, concrete_by_family, protos) -> None:
